@@ -8,6 +8,8 @@
 import CM.Proofs.StackLemmas
 import CM.Model.Pipe
 import CM.Model.Denote
+import CM.Proofs.BagField
+import CM.Proofs.BagDen
 namespace CM.C07
 open CM
 
@@ -84,4 +86,92 @@ example : silence [1] [.leaf (.int 1), .leaf (.int 2)] = silence [1] [.leaf (.in
   | 1 => simp at hi
   | n + 2 => rfl
 
+/-! ## Node level: a cache layer connected to a bag (`connect_bags`, gluing theorem) -/
+
+
+/-- **A cache edge is transparent for the denotation**: the node hash is the parent's hash, and (every lookup being a miss
+in the specification) the value is the parent's value whenever the parent has a hash. -/
+theorem cache_node_den (d : DenCfg) (s : Nat) (t : BTerm) :
+    ((BTerm.node (.cache s) [t]).den d).h.map (·.1) = (t.den d).h.map (·.1) ∧
+    (∀ hh, (t.den d).h = .ok hh → ((BTerm.node (.cache s) [t]).den d).v = (t.den d).v) := by
+  constructor
+  · simp only [BTerm.den, BTerm.denList, EdgeK.hashProg, staticHash, List.length_cons, List.length_nil, Nat.zero_add,
+      List.range, List.range.loop, List.map_cons, List.map_nil, interp, interpReq, interpReqs]
+    cases hh : (t.den d).h with
+    | error e => simp [Except.map, Except.bind, hh]
+    | ok p =>
+      obtain ⟨h, pl⟩ := p
+      simp [Except.map, Except.bind, hh, asHashes, interp, Item.asHout]
+  · intro hh hok
+    obtain ⟨h, pl⟩ := hh
+    simp only [BTerm.den, BTerm.denList, EdgeK.hashProg, EdgeK.evalProg, staticHash, List.length_cons, List.length_nil,
+      Nat.zero_add, List.range, List.range.loop, List.map_cons, List.map_nil, interp, interpReq, interpReqs]
+    simp only [hok, Except.map, Except.bind, asHashes, interp, Item.asHout, List.getElem?_cons_zero]
+    cases hv : (t.den d).v with
+    | error e => simp [interp, interpReq, Except.map, Except.bind, hv]
+    | ok v => simp [interp, interpReq, Except.map, Except.bind, hv, Item.asVal]
+
+/-- what gluing does to the term of a cached field -/
+theorem glue_cache {l : Bag} {s : Nat} {x : String} {t : BTerm} (h : Glue l (.node (.cache s) [.inp x]) t) :
+    ∃ t', t = .node (.cache s) [t'] ∧ Glue l (.inp x) t' := by
+  cases h with
+  | @node _ _ ts' hlen hz =>
+    match ts', hlen with
+    | [t'], _ =>
+      exact ⟨t', rfl, hz (.inp x, t') (by simp)⟩
+
+/-- **Node level: a cache layer is hash-transparent.**  Connect a well-formed bag `l` with a bag `r` in which the field `x` is
+a cache edge over the input of the same name (what `CacheToStorage._prepare_container` builds for every cached name).  If `l`
+has the field `x` computing `tl`, the connected bag computes `cache(tl)` under `x`, whose node hash is the node hash of `tl`
+and whose cache-free value is the value of `tl`: inserting the layer changes no key. -/
+theorem node_cache_layer_transparent {l r : Bag} (h : Sep l r) (hs : SingleIncoming (connected l r).edges)
+    (x : String) (s : Nat) (hr : ∀ t0, r.Field x t0 → t0 = .node (.cache s) [.inp x]) (hrx : x ∈ names r.outputs)
+    (tl : BTerm) (hl : l.Field x tl) (t : BTerm) (hf : (connected l r).Field x t) (d : DenCfg) :
+    t = .node (.cache s) [tl] ∧ (t.den d).h.map (·.1) = (tl.den d).h.map (·.1) ∧
+    (∀ hh, (tl.den d).h = .ok hh → (t.den d).v = (tl.den d).v) := by
+  have hsl : SingleIncoming l.edges := h.wl.single
+  have hnd := h.wl.outNames
+  rcases (connected_field h hs x t).1 hf with ⟨t0, hr0, hg⟩ | ⟨hp, _⟩
+  · rw [hr t0 hr0] at hg
+    obtain ⟨t', rfl, hg'⟩ := glue_cache hg
+    obtain ⟨o, ho, hox, hd⟩ := hl
+    have : t' = tl := by
+      cases hg' with
+      | @fed _ o' _ ho' hon' hd' =>
+        have : o' = o := hnd o' ho' o ho (hon'.trans hox.symm)
+        subst this
+        exact BDen.det hsl hd' hd
+      | virt hx _ => exact absurd (List.mem_map.2 ⟨o, ho, hox⟩) hx
+      | cut hx _ => exact absurd (List.mem_map.2 ⟨o, ho, hox⟩) hx
+    subst this
+    exact ⟨rfl, cache_node_den d s t'⟩
+  · -- a name that is an output of the right bag is not passed on
+    exfalso
+    have hv : r.virt.mem x = false := by
+      obtain ⟨o, ho, hox⟩ := List.mem_map.1 hrx
+      have := h.wr.virtOut o ho
+      rw [hox] at this
+      exact this
+    simp only [passes, hv, Bool.false_or, Bool.and_eq_true, Bool.not_eq_true', List.contains_eq_mem,
+      decide_eq_false_iff_not] at hp
+    exact hp.2 hrx
+
+/-- **Node level: a name the cache layer does not cache is untouched**: the connected bag computes under `x` exactly the
+term the left bag computes (the same node hash, the same value), through the pass-through clone. -/
+theorem node_uncached_field_same {l r : Bag} (h : Sep l r) (hs : SingleIncoming (connected l r).edges)
+    (x : String) (hrx : x ∉ names r.outputs) (t : BTerm) :
+    (connected l r).Field x t ↔ passes l r x = true ∧ l.Field x t := by
+  rw [connected_field h hs x t]
+  constructor
+  · rintro (⟨t0, ⟨o, ho, hox, _⟩, _⟩ | hp)
+    · exact absurd (List.mem_map.2 ⟨o, ho, hox⟩) hrx
+    · exact hp
+  · exact Or.inr
+
+/-- non-vacuity (a test): over the input `x = 1` the cached field has the hash and the value of the input -/
+example : ((BTerm.node (.cache 0) [.inp "x"]).den { env := fun _ => some (.int 1) }).v = .ok (.int 1) ∧
+    (((BTerm.node (.cache 0) [.inp "x"]).den { env := fun _ => some (.int 1) }).h.map (·.1)) = .ok (.leaf (.int 1)) := by
+  have h := cache_node_den { env := fun _ => some (.int 1) } 0 (.inp "x")
+  simp only [BTerm.den] at h ⊢
+  exact ⟨h.2 _ rfl, h.1⟩
 end CM.C07
